@@ -33,6 +33,13 @@ BudgetClauses(max, steps) ==
     (* "its usage returns to zero once every buffer is returned" *)
     (IF \E k \in DOMAIN steps : OutAfter(steps, k) = 0 /\ steps[k].used # 0 THEN {"usage-zero-when-all-returned"} ELSE {})
 
+(* the same two sentences for a concurrent run, of which only extremes are recorded: the largest  *)
+(* UsedBytes() observed, the largest number of bytes held at once, UsedBytes() after all returned *)
+ConcBudgetClauses(max, maxused, maxheld, finalused) ==
+    (IF max > 0 /\ maxused > max THEN {"reported-usage-within-maximum-under-concurrency"} ELSE {})
+    \cup (IF max > 0 /\ maxheld > max THEN {"checked-out-within-maximum-under-concurrency"} ELSE {})
+    \cup (IF finalused # 0 THEN {"usage-zero-when-all-returned"} ELSE {})
+
 (* ======================= (b) algorithm level ======================= *)
 (* BucketedPool.Get: the first bucket that fits; the budget is tested against what is going to *)
 (* be accounted (the bucket size, or the requested size beyond the largest bucket).             *)
